@@ -33,6 +33,10 @@ struct Cx<'a> {
     /// `let name = <reg> + k;` (valid until the register changes)
     news: HashMap<String, u64>,
     rows: Vec<Row>,
+    /// ordering of the load in `Arc::get` (for `self.get()` inside a `debug_assert!`)
+    get_ord: Option<String>,
+    /// sites of `debug_assert!` statements that access the counter (shared with `generate`)
+    debug_sites: std::rc::Rc<std::cell::RefCell<Vec<String>>>,
 }
 
 fn ident_of(e: &Expr) -> Option<String> {
@@ -90,7 +94,7 @@ fn unbrace(e: &Expr) -> &Expr {
 
 impl<'a> Cx<'a> {
     fn new(f: &'a SrcFile) -> Self {
-        Cx { f, ords: HashMap::new(), alias: None, reg: None, news: HashMap::new(), rows: vec![] }
+        Cx { f, ords: HashMap::new(), alias: None, reg: None, news: HashMap::new(), rows: vec![], get_ord: None, debug_sites: Default::default() }
     }
     fn bad<T>(&self, what: &str, sp: Span) -> R<T> {
         Err(format!("Gen/Atomics: unsupported {what} at {}", loc(self.f, sp)))
@@ -199,7 +203,86 @@ impl<'a> Cx<'a> {
 
     /// `fence(ord);`, `A.store(<reg> ± k, ord);` or a result-discarding `A.fetch_sub/add(n, ord);`
     /// as a `Simple`; `None` if `s` is something else.
+    /// `debug_assert!(<cond>[, msg…]);` / `debug_assert_eq!/ne!(a, b[, …]);`: `Ok(None)` if the
+    /// assertion does not mention `self` at all (purely local), `Ok(Some(ord))` if it performs
+    /// exactly one recognised load of the counter (`self.get()`, `self.is_unique()` is rejected
+    /// because it also fences, `self.0.load(ord)` / `<alias>.load(ord)`), `Err` otherwise.
+    fn debug_assert_access(&self, m: &syn::StmtMacro) -> R<Option<String>> {
+        use syn::punctuated::Punctuated;
+        let name = m.mac.path.segments.last().map(|s| s.ident.to_string()).unwrap_or_default();
+        let sp = m.mac.path.span();
+        if !matches!(name.as_str(), "debug_assert" | "debug_assert_eq" | "debug_assert_ne") {
+            return self.bad(&format!("macro statement `{name}!` (only `debug_assert*!` is understood)"), sp);
+        }
+        let args = m
+            .mac
+            .parse_body_with(Punctuated::<Expr, syn::Token![,]>::parse_terminated)
+            .map_err(|e| format!("Gen/Atomics: unsupported arguments of `{name}!` at {}: {e}", loc(self.f, sp)))?;
+        let n_cond = if name == "debug_assert" { 1 } else { 2 };
+        struct Find<'c, 'a> {
+            cx: &'c Cx<'a>,
+            loads: Vec<R<String>>,
+            mentions_self: bool,
+        }
+        impl<'c, 'a, 'ast> syn::visit::Visit<'ast> for Find<'c, 'a> {
+            fn visit_expr_method_call(&mut self, mc: &'ast ExprMethodCall) {
+                let recv_self = matches!(&*mc.receiver, Expr::Path(p) if p.path.is_ident("self"));
+                let on_atomic = Cx::is_self0(&mc.receiver)
+                    || ident_of(&mc.receiver).map_or(false, |id| Some(id) == self.cx.alias);
+                let meth = mc.method.to_string();
+                if recv_self && meth == "get" && mc.args.is_empty() {
+                    self.mentions_self = true;
+                    self.loads.push(match &self.cx.get_ord {
+                        Some(o) => Ok(o.clone()),
+                        None => self.cx.bad("`self.get()` in a `debug_assert!` (the shape of `Arc::get` is not `load(ord) + k`)", mc.span()),
+                    });
+                    return;
+                }
+                if on_atomic && meth == "load" && mc.args.len() == 1 {
+                    self.mentions_self = true;
+                    self.loads.push(self.cx.ord(&mc.args[0]).map(|o| o.to_string()));
+                    return;
+                }
+                if recv_self || on_atomic {
+                    self.mentions_self = true;
+                    self.loads.push(self.cx.bad(&format!("counter access `{meth}` inside a `debug_assert!`"), mc.span()));
+                    return;
+                }
+                syn::visit::visit_expr_method_call(self, mc);
+            }
+            fn visit_expr_path(&mut self, p: &'ast syn::ExprPath) {
+                if p.path.is_ident("self") || ident_of(&Expr::Path(p.clone())).map_or(false, |id| Some(id) == self.cx.alias) {
+                    self.mentions_self = true;
+                }
+            }
+        }
+        let mut fnd = Find { cx: self, loads: vec![], mentions_self: false };
+        for a in args.iter().take(n_cond) {
+            syn::visit::Visit::visit_expr(&mut fnd, a);
+        }
+        let mut loads = vec![];
+        for l in fnd.loads {
+            loads.push(l?);
+        }
+        match (loads.len(), fnd.mentions_self) {
+            (0, false) => Ok(None),
+            (1, _) => Ok(Some(loads.remove(0))),
+            (0, true) => self.bad(&format!("use of `self` inside `{name}!` that is not a recognised counter load"), sp),
+            _ => self.bad(&format!("more than one counter access inside one `{name}!`"), sp),
+        }
+    }
+
     fn simple(&self, s: &Stmt) -> R<Option<(String, Span)>> {
+        if let Stmt::Macro(m) = s {
+            return Ok(match self.debug_assert_access(m)? {
+                Some(o) => {
+                    self.debug_sites.borrow_mut().push(loc(self.f, m.mac.path.span()));
+                    Some((format!(".debugLoad {o}"), m.mac.path.span()))
+                }
+                // a purely local assertion: no step (marked so that the caller skips it)
+                None => Some((String::new(), m.mac.path.span())),
+            });
+        }
         let Stmt::Expr(e, Some(_)) = s else { return Ok(None) };
         if let Expr::Call(c) = e {
             if let (true, Some("fence"), Some(o), 1) =
@@ -269,8 +352,14 @@ impl<'a> Cx<'a> {
         let mut simples = vec![];
         for s in init {
             match self.simple(s)? {
+                Some((t, _)) if t.is_empty() => {}
                 Some((t, _)) => simples.push(t),
-                None => return self.bad("statement in branch arm", s.span()),
+                None => {
+                    return self.bad(
+                        "statement in branch arm (known: `fence(..);`, `A.store(..);`, `A.fetch_sub/add(n, ..);`, `debug_assert!(..)`)",
+                        s.span(),
+                    )
+                }
             }
         }
         let Some(r) = self.tail(last) else { return self.bad("end of branch arm", last.span()) };
@@ -439,7 +528,9 @@ impl<'a> Cx<'a> {
         for (n, s) in b.stmts.iter().enumerate() {
             let last = n + 1 == b.stmts.len();
             if let Some((t, sp)) = self.simple(s)? {
-                self.push(format!(".simple ({t})"), sp);
+                if !t.is_empty() {
+                    self.push(format!(".simple ({t})"), sp);
+                }
                 continue;
             }
             match s {
@@ -548,6 +639,15 @@ pub fn generate(repo: &Repo) -> R<Vec<GenFile>> {
     }).collect();
     let [im] = &impls[..] else { return Err(format!("Gen/Atomics: expected exactly one `impl Kind for Arc` in {FILE}, found {}", impls.len())) };
 
+    // `Arc::get` first: `self.get()` may appear inside a `debug_assert!` of another method
+    let get_ord: Option<String> = im.items.iter().find_map(|it| match it {
+        ImplItem::Fn(m) if m.sig.ident == "get" => Cx::new(f).body(&m.block).ok().and_then(|rows| match &rows[..] {
+            [l, r] if l.text.starts_with(".load ") && r.text.starts_with(".ret (.oldPlus ") => Some(l.text[6..].to_string()),
+            _ => None,
+        }),
+        _ => None,
+    });
+    let mut debug_accesses: Vec<(String, String)> = vec![];
     // (rust name, doc text, fn location, definition), in source order
     let mut defs: Vec<(String, String, String, Def)> = vec![];
     let mut hooks: Vec<(String, String)> = vec![];
@@ -575,7 +675,15 @@ pub fn generate(repo: &Repo) -> R<Vec<GenFile>> {
                 let (v, at) = one(f, &m.block)?;
                 Def::One(v, at)
             }
-            "decr" | "incr" | "get" | "is_unique" if self_only => Def::Steps(Cx::new(f).body(&m.block)?),
+            "decr" | "incr" | "get" | "is_unique" if self_only => {
+                let mut cx = Cx::new(f);
+                cx.get_ord = get_ord.clone();
+                let sites = cx.debug_sites.clone();
+                let rows = cx.body(&m.block)?;
+                let lean = if name == "is_unique" { "isUnique".to_string() } else { name.clone() };
+                debug_accesses.extend(sites.borrow().iter().map(|l| (lean.clone(), l.clone())));
+                Def::Steps(rows)
+            }
             _ => return Err(format!("Gen/Atomics: unsupported method `{name}` at {at}")),
         };
         let doc = format!("`Arc::{name}` ({at})");
@@ -641,6 +749,9 @@ pub fn generate(repo: &Repo) -> R<Vec<GenFile>> {
         })
         .collect();
     table(&mut o, site_rows);
+    o += "/-- `debug_assert!` statements that access the counter (compiled in debug builds only). -/\n";
+    o += "def debugOnlyAccesses : List (String × String) := [\n";
+    table(&mut o, debug_accesses.iter().map(|d| (format!("(\"{}\", \"{}\")", d.0, d.1), String::new())).collect());
     o += "end HipVerif.Gen.Atomics\n";
     Ok(vec![GenFile { name: "Atomics.lean".into(), content: o }])
 }
